@@ -8,12 +8,13 @@ Import ListNotations.
 Local Arguments Nat.ltb : simpl never.
 Local Arguments Nat.max : simpl never.
 Local Arguments Nat.sub : simpl never.
+Local Arguments Nat.mul : simpl never.
 
 Definition wwp (T : nat) (p : wpc) (ins : bool) : nat :=
   match p with
   | W_new => 1 | W_parked => 0 | W_woken => 1 | W_loop => 1
-  | W_task _ k => (T - k) + (T - k) + 5
-  | W_ret _ k => (T - k) + (T - k) + 4
+  | W_task _ k => 2 * (T - k) + 5
+  | W_ret _ k => 2 * (T - k) + 4
   | W_exc _ _ => 4
   | W_exited | W_raised => if ins then 3 else 0
   end.
@@ -36,8 +37,7 @@ Definition mrank (m : mpc) : nat :=
 Definition run_or_new (s : state) : bool :=
   match pstate s, mainpc s with St_running, _ => true | _, M_new => true | _, _ => false end.
 Definition resv (b : bool) (ci cc : nat) : nat :=
-  if b then Nat.max ci cc + Nat.max ci cc + Nat.max ci cc + Nat.max ci cc + Nat.max ci cc + Nat.max ci cc
-            + Nat.max ci cc + Nat.max ci cc + (cc - ci) + 2 else 0.
+  if b then 8 * Nat.max ci cc + (cc - ci) + 2 else 0.
 
 Definition Phi (T : nat) (s : state) : nat :=
   (T + T + 14) * src_left s + (T + T + 9) * length (q_items s) + 7 * q_pills s
@@ -177,9 +177,250 @@ Proof.
   all: phi_fin T.
 Qed.
 
-Lemma phi_prod_step T s s' : prod_step s = Some s' -> Phi T s' < Phi T s.
+
+(* ---- effect of the helpers on the potential ---------------------------------------------------------- *)
+Ltac phi_simple T := unfold Phi, run_or_new; cbn; cnt2; absorb T; try lia.
+
+Lemma phi_set_prod T s p : Phi T (set_prod s p) + pw T (prod s) = Phi T s + pw T p.
+Proof. phi_simple T. Qed.
+Lemma phi_set_prod_running T s b : Phi T (set_prod_running s b) = Phi T s.
+Proof. reflexivity. Qed.
+Lemma phi_set_prod_cancel T s b : Phi T (set_prod_cancel s b) = Phi T s.
+Proof. reflexivity. Qed.
+Lemma phi_add_log T s e : Phi T (add_log s e) = Phi T s.
+Proof. reflexivity. Qed.
+Lemma phi_set_unfinished T s u : Phi T (set_unfinished s u) = Phi T s.
+Proof. reflexivity. Qed.
+Lemma phi_set_pills T s p : Phi T (set_pills s p) + 7 * q_pills s = Phi T s + 7 * p.
+Proof. phi_simple T. Qed.
+Lemma phi_set_items T s q : Phi T (set_items s q) + (T + T + 9) * length (q_items s) = Phi T s + (T + T + 9) * length q.
+Proof. phi_simple T. Qed.
+
+Lemma phi_notify_all T s : Phi T (notify_all s) <= Phi T s + 3.
+Proof. rewrite notify_all_eq. pose proof (phi_set_prod T s (pnotify (prod s))). pose proof (pw_pnotify T (prod s)). lia. Qed.
+
+Lemma phi_wake_n T s k : Phi T (wake_n k s) <= Phi T s + k.
 Proof.
-  unfold prod_step, prod_put, prod_loop, pipeline_stop, qsize.
-  brk2; intros H; inversion H; subst; clear H.
-  all: nf2; brk2; phi_fin T.
+  rewrite wake_n_eq. unfold Phi, run_or_new. cbn. cnt2.
+  pose proof (sumw_wake T (workers s) (firstn k (getters s))). pose proof (firstn_length_le' k (getters s)). lia.
+Qed.
+
+Lemma phi_wake_one T s : Phi T (wake_one s) <= Phi T s + 1.
+Proof. apply (phi_wake_n T s 1). Qed.
+
+Lemma phi_put_pills T s k : Phi T (put_pills k s) <= Phi T s + 8 * k.
+Proof.
+  unfold put_pills. pose proof (phi_wake_n T (set_pills s (q_pills s + k)) k).
+  pose proof (phi_set_pills T s (q_pills s + k)). lia.
+Qed.
+
+Lemma phi_event_set T s : Phi T (event_set s) <= Phi T s + 1.
+Proof.
+  rewrite event_set_eq. destruct (unpaused s); [lia|]. unfold Phi, run_or_new. cbn.
+  pose proof (mrank_mwake (mainpc s)).
+  assert (E : match pstate s with St_running => true | _ => match mwake (mainpc s) with M_new => true | _ => false end end =
+              match pstate s with St_running => true | _ => match mainpc s with M_new => true | _ => false end end).
+  { destruct (pstate s); try reflexivity; destruct (mainpc s); reflexivity. }
+  rewrite E. lia.
+Qed.
+
+Lemma phi_pipeline_stop T s :
+  Stp s -> Phi T (pipeline_stop s) <= Phi T s /\ (pstate s = St_running -> Phi T (pipeline_stop s) + 1 <= Phi T s).
+Proof.
+  intros St. unfold pipeline_stop. destruct (pstate s) eqn:EP; try (split; [lia|discriminate]).
+  assert (NN : mainpc s <> M_new) by (intros H; destruct (st_new _ St H); congruence).
+  set (s1 := set_prod_running (set_stopped_at (set_pstate s St_stopping) (Some (length (log s)))) false).
+  assert (E1 : Phi T s1 + (8 * Nat.max (count_inset (workers s)) (conc s) + (conc s - count_inset (workers s)) + 2) = Phi T s).
+  { unfold s1, Phi, run_or_new. cbn. rewrite EP. destruct (mainpc s); try (now elim NN); cbn; lia. }
+  pose proof (phi_put_pills T s1 (count_inset (workers s1))) as E2.
+  pose proof (phi_event_set T (put_pills (count_inset (workers s1)) s1)) as E3.
+  change (count_inset (workers s1)) with (count_inset (workers s)) in *.
+  split; [|intros _]; lia.
+Qed.
+
+Lemma phi_prod_loop T s : Stp s -> Phi T (prod_loop s) + pw T (prod s) <= Phi T s + 3.
+Proof.
+  intros St. unfold prod_loop. destruct (prod_running s).
+  - pose proof (phi_set_prod T s P_src). cbn in *. lia.
+  - destruct (phi_pipeline_stop T s St) as [A _].
+    pose proof (phi_set_prod T (pipeline_stop s) P_done) as B.
+    assert (E : prod (pipeline_stop s) = prod s).
+    { unfold pipeline_stop. destruct (pstate s); try reflexivity. rewrite event_set_eq, put_pills_eq.
+      destruct (unpaused _); reflexivity. }
+    rewrite E in B. cbn in B. lia.
+Qed.
+
+Lemma stp_for_prod_put t s i :
+  Safe t s -> Stp s -> pitem (prod s) = Some i ->
+  Stp (wake_one (set_items (set_unfinished s (S (unfinished s))) (q_items s ++ [i]))).
+Proof.
+  intros Sf St E.
+  assert (S1 : Stp (set_prod (set_items (set_unfinished s (S (unfinished s))) (q_items s ++ [i])) P_src)) by stp_same St.
+  apply (stp_wake_one t) in S1; [|now apply safe_enqueue]. rewrite wake_one_set_prod in S1.
+  apply (stp_frame _ _ S1); cbn; auto. apply (st_bad _ S1).
+Qed.
+
+Lemma phi_prod_put T t s i :
+  Safe t s -> Stp s -> pitem (prod s) = Some i -> T + T + 15 <= pw T (prod s) -> Phi T (prod_put i s) < Phi T s.
+Proof.
+  intros Sf St Ei PW. unfold prod_put. destruct (qsize s).
+  - set (s1 := set_items (set_unfinished s (S (unfinished s))) (q_items s ++ [i])).
+    pose proof (phi_set_items T (set_unfinished s (S (unfinished s))) (q_items s ++ [i])) as A.
+    rewrite app_length in A. cbn [length q_items set_unfinished] in A. rewrite phi_set_unfinished in A.
+    pose proof (phi_wake_one T s1) as B.
+    pose proof (phi_prod_loop T (wake_one s1) (stp_for_prod_put t s i Sf St Ei)) as C.
+    assert (E : prod (wake_one s1) = prod s) by (rewrite wake_one_eq; reflexivity).
+    rewrite E in C. fold s1 in A. lia.
+  - pose proof (phi_set_prod T s (P_put_parked i false)) as A. cbn in A. lia.
+Qed.
+
+Lemma phi_prod_step T t s s' : Safe t s -> Stp s -> prod_step s = Some s' -> Phi T s' < Phi T s.
+Proof.
+  intros Sf St. unfold prod_step. destruct (pdone (prod s)) eqn:PD; [discriminate|].
+  destruct (prod s) as [| | |i| | |i [|]|[|]| | |] eqn:E; try discriminate;
+    (destruct (prod_cancel s);
+     [intros H; injection H as <-; rewrite phi_set_prod_cancel;
+      pose proof (phi_set_prod T s P_cancelled) as A; rewrite E in A; cbn in A; lia|]);
+    try discriminate;
+    try (match goal with |- match unfinished s with _ => _ end = _ -> _ => destruct (unfinished s) eqn:EU end);
+    intros H; injection H as <-.
+  - assert (S1 : Stp (set_prod_running s true)) by stp_same St.
+    pose proof (phi_prod_loop T _ S1) as A. cbn [prod set_prod_running] in A. rewrite E in A.
+    change (pw T P_new) with 4 in A. rewrite phi_set_prod_running in A. lia.
+  - apply (phi_prod_put T t); auto; rewrite E; cbn; [reflexivity|lia].
+  - assert (S1 : Stp (set_prod_running s false)) by stp_same St.
+    destruct (phi_pipeline_stop T _ S1) as [A _]. rewrite phi_set_prod_running in A.
+    pose proof (phi_set_prod T (pipeline_stop (set_prod_running s false)) P_done) as B.
+    assert (EP : prod (pipeline_stop (set_prod_running s false)) = prod s).
+    { unfold pipeline_stop. cbn [pstate set_prod_running]. destruct (pstate s); try reflexivity.
+      rewrite event_set_eq, put_pills_eq. destruct (unpaused _); reflexivity. }
+    rewrite EP, E in B. cbn in B. lia.
+  - pose proof (phi_set_prod T s (P_wait_parked false)) as A. rewrite E in A. cbn in A. lia.
+  - destruct (phi_pipeline_stop T _ St) as [A _].
+    pose proof (phi_set_prod T (pipeline_stop s) P_raised) as B.
+    assert (EP : prod (pipeline_stop s) = prod s).
+    { unfold pipeline_stop. destruct (pstate s); try reflexivity.
+      rewrite event_set_eq, put_pills_eq. destruct (unpaused _); reflexivity. }
+    rewrite EP, E in B. cbn in B. lia.
+  - apply (phi_prod_put T t); auto; rewrite E; cbn; [reflexivity|lia].
+  - pose proof (phi_prod_loop T s St) as A. rewrite E in A. cbn in A. lia.
+Qed.
+
+(* ---- workers -------------------------------------------------------------------------------------------- *)
+Lemma phi_set_wpc T s w p q :
+  wpc_at (workers s) w = Some q -> Phi T (set_wpc s w p) + wlo T q <= Phi T s + whi T p.
+Proof.
+  intros A. unfold Phi, run_or_new. cbn. cnt2. pose proof (sumw_upd_bound T (workers s) w p q A). lia.
+Qed.
+
+Lemma wpc_at_frame_notify s w : wpc_at (workers (notify_all s)) w = wpc_at (workers s) w.
+Proof. rewrite notify_all_eq. reflexivity. Qed.
+
+(* ItemQueue.get and what follows, by a worker whose current pc is q: at least wlo q is paid back *)
+Lemma phi_worker_get T s w q :
+  wpc_at (workers s) w = Some q -> Phi T (worker_get T w s) + wlo T q <= Phi T s.
+Proof.
+  intros A. unfold worker_get. destruct (q_pills s) as [|pl] eqn:EP.
+  - destruct (q_items s) as [|i r] eqn:EQ.
+    + pose proof (phi_set_wpc T s w W_parked q A) as B. cbn [whi wwp] in B.
+      assert (E : Phi T (set_getters (set_wpc s w W_parked) (getters s ++ [w])) = Phi T (set_wpc s w W_parked)) by reflexivity.
+      lia.
+    + pose proof (phi_set_items T s r) as B. rewrite EQ in B. cbn [length] in B.
+      pose proof (phi_notify_all T (set_items s r)) as C.
+      assert (A1 : wpc_at (workers (notify_all (set_items s r))) w = Some q) by (rewrite wpc_at_frame_notify; exact A).
+      destruct T as [|T'].
+      * destruct (unfinished (notify_all (set_items s r))) as [|u].
+        -- pose proof (phi_set_wpc 0 _ w W_raised q A1) as D. cbn [whi wwp] in D. lia.
+        -- pose proof (phi_notify_all 0 (set_unfinished (notify_all (set_items s r)) u)) as D.
+           rewrite phi_set_unfinished in D.
+           assert (A2 : wpc_at (workers (notify_all (set_unfinished (notify_all (set_items s r)) u))) w = Some q)
+             by (rewrite wpc_at_frame_notify; exact A1).
+           pose proof (phi_set_wpc 0 _ w W_loop q A2) as F. cbn [whi wwp] in F. lia.
+      * pose proof (phi_set_wpc (S T') (add_log (notify_all (set_items s r)) (Start i 0)) w (W_task i 0) q A1) as D.
+        rewrite phi_add_log in D. cbn [whi wwp] in D. lia.
+  - pose proof (phi_set_pills T s pl) as B. rewrite EP in B.
+    pose proof (phi_notify_all T (set_pills s pl)) as C.
+    assert (A1 : wpc_at (workers (notify_all (set_pills s pl))) w = Some q) by (rewrite wpc_at_frame_notify; exact A).
+    pose proof (phi_set_wpc T _ w W_exited q A1) as D. cbn [whi wwp] in D. lia.
+Qed.
+
+Lemma phi_worker_step T w s s' : worker_step T w s = Some s' -> Phi T s' < Phi T s.
+Proof.
+  unfold worker_step. destruct (wpc_at (workers s) w) as [p|] eqn:A; [|discriminate].
+  destruct p as [| | | |i k|i k|i k| |]; try discriminate.
+  - intros H; injection H as <-. pose proof (phi_worker_get T s w _ A) as B. cbn [wlo wwp] in B. lia.
+  - intros H; injection H as <-. pose proof (phi_worker_get T s w _ A) as B. cbn [wlo wwp] in B. lia.
+  - intros H; injection H as <-. pose proof (phi_worker_get T s w _ A) as B. cbn [wlo wwp] in B. lia.
+  - destruct (S k <? T) eqn:Tk.
+    + apply Nat.ltb_lt in Tk. intros H; injection H as <-.
+      pose proof (phi_set_wpc T (add_log (add_log s (End_ i k)) (Start i (S k))) w (W_task i (S k)) _ A) as B.
+      rewrite !phi_add_log in B. cbn [wlo whi wwp] in B. lia.
+    + cbn [unfinished add_log]. destruct (unfinished s) as [|u]; intros H; injection H as <-.
+      * pose proof (phi_set_wpc T (add_log s (End_ i k)) w W_raised _ A) as B. rewrite phi_add_log in B.
+        cbn [wlo whi wwp] in B. lia.
+      * pose proof (phi_notify_all T (set_unfinished (add_log s (End_ i k)) u)) as B.
+        rewrite phi_set_unfinished, phi_add_log in B.
+        assert (A1 : wpc_at (workers (notify_all (set_unfinished (add_log s (End_ i k)) u))) w = Some (W_ret i k))
+          by (rewrite wpc_at_frame_notify; exact A).
+        pose proof (phi_worker_get T _ w _ A1) as D. cbn [wlo wwp] in D. lia.
+  - intros H; injection H as <-. pose proof (phi_set_wpc T s w W_raised _ A) as B. cbn [wlo whi wwp] in B. lia.
+Qed.
+
+(* ---- every progress step ------------------------------------------------------------------------------------ *)
+Definition progress (l : label) : bool := match l with E_stop | E_conc _ => false | _ => true end.
+
+Lemma phi_step T s l s' :
+  Safe T s -> Stp s -> Ctl s -> step T s l = Some s' ->
+  (progress l = true -> Phi T s' < Phi T s) /\ (l = E_stop -> Phi T s' <= Phi T s).
+Proof.
+  intros Sf St C H. split; [|intros ->; cbn in H; injection H as <-; apply (phi_pipeline_stop T s St)].
+  destruct l as [| |w|i|i| | | | |k]; cbn [step progress] in *; intros P; try discriminate P.
+  - now apply phi_main_step.
+  - now apply (phi_prod_step T T).
+  - now apply (phi_worker_step T w).
+  - destruct (find_task (workers s) i 0) as [[w k]|] eqn:F; [|discriminate]. injection H as <-.
+    destruct (find_task_spec _ _ _ _ _ F) as [_ A]. rewrite Nat.sub_0_r in A.
+    pose proof (phi_set_wpc T s w (W_ret i k) _ A) as B. cbn [wlo whi wwp] in B. lia.
+  - destruct (find_task (workers s) i 0) as [[w k]|] eqn:F; [|discriminate]. injection H as <-.
+    destruct (find_task_spec _ _ _ _ _ F) as [_ A]. rewrite Nat.sub_0_r in A.
+    pose proof (phi_set_wpc T s w (W_exc i k) _ A) as B. cbn [wlo whi wwp] in B. lia.
+  - destruct (prod s) eqn:E; try discriminate. destruct (prod_cancel s); [discriminate|].
+    destruct (src_left s) as [|m] eqn:ES; [discriminate|]. injection H as <-.
+    unfold Phi, run_or_new. cbn. rewrite E, ES. cbn. lia.
+  - destruct (prod s) eqn:E; try discriminate. destruct (prod_cancel s); [discriminate|]. injection H as <-.
+    pose proof (phi_set_prod T s P_src_none) as B. rewrite E in B. cbn in B. lia.
+  - destruct (prod s) eqn:E; try discriminate. destruct (prod_cancel s); [discriminate|]. injection H as <-.
+    pose proof (phi_set_prod T s P_src_exc) as B. rewrite E in B. cbn in B. lia.
+Qed.
+
+(* the number of progress steps of any run without a concurrency change is bounded by the potential *)
+Fixpoint count_progress (ls : list label) : nat :=
+  match ls with [] => 0 | l :: r => b2n (progress l) + count_progress r end.
+Definition no_conc (l : label) : bool := match l with E_conc _ => false | _ => true end.
+
+Theorem bounded_progress T n c s :
+  reachable T n c s -> forall ls s', run T s ls = Some s' -> forallb no_conc ls = true ->
+  count_progress ls + Phi T s' <= Phi T s.
+Proof.
+  intros R ls. revert s R. induction ls as [|l ls IH]; intros s R s' H NC.
+  - cbn in H. injection H as <-. cbn. lia.
+  - cbn in H. destruct (step T s l) as [s1|] eqn:E; [|discriminate]. cbn in NC. apply andb_prop in NC. destruct NC as [N1 N2].
+    assert (R1 : reachable T n c s1) by (eapply R_step; eauto).
+    specialize (IH s1 R1 s' H N2).
+    destruct (phi_step T s l s1 (safe_reachable _ _ _ _ R) (stp_reachable _ _ _ _ R) (ctl_reachable _ _ _ _ R) E) as [P1 P2].
+    cbn [count_progress]. destruct l; cbn [progress b2n no_conc] in *; try discriminate N1;
+      try (specialize (P1 eq_refl); lia). specialize (P2 eq_refl). lia.
+Qed.
+
+(* hence no infinite execution: the successor relation restricted to progress steps is well-founded *)
+Definition succ_rel (T n c : nat) (s2 s1 : state) : Prop :=
+  reachable T n c s1 /\ exists l, progress l = true /\ step T s1 l = Some s2.
+
+Theorem every_execution_finite T n c : well_founded (succ_rel T n c).
+Proof.
+  assert (W : forall k s, Phi T s < k -> Acc (succ_rel T n c) s).
+  { induction k as [|k IH]; intros s L; [lia|]. constructor. intros s2 [R [l [P E]]].
+    apply IH. destruct (phi_step T s l s2 (safe_reachable _ _ _ _ R) (stp_reachable _ _ _ _ R) (ctl_reachable _ _ _ _ R) E) as [P1 _].
+    specialize (P1 P). lia. }
+  intros s. apply (W (S (Phi T s))). lia.
 Qed.
